@@ -45,6 +45,12 @@ impl Axecutor {
         }
 
         let (quotient, remainder) = (ax / src_val, ax % src_val);
+        if quotient > u8::MAX as u16 {
+            // The quotient does not fit into the destination: the CPU raises a divide error
+            return Err(AxError::from(format!(
+                "Divide error in Div_rm8: quotient {quotient:#x} is too large"
+            )));
+        }
 
         self.reg_write_8(AL, quotient as u8 as u64)?;
         self.reg_write_8(AH, remainder as u8 as u64)?;
@@ -75,6 +81,12 @@ impl Axecutor {
         let dst_val = self.reg_read_16(AX)? as u32 | ((self.reg_read_16(DX)? as u32) << 16);
 
         let (quotient, remainder) = (dst_val / src_val, dst_val % src_val);
+        if quotient > u16::MAX as u32 {
+            // The quotient does not fit into the destination: the CPU raises a divide error
+            return Err(AxError::from(format!(
+                "Divide error in Div_rm16: quotient {quotient:#x} is too large"
+            )));
+        }
 
         self.reg_write_16(AX, quotient as u16 as u64)?;
         self.reg_write_16(DX, remainder as u16 as u64)?;
@@ -105,6 +117,12 @@ impl Axecutor {
         let dst_val = self.reg_read_32(EAX)? | (self.reg_read_32(EDX)? << 32);
 
         let (quotient, remainder) = (dst_val / src_val, dst_val % src_val);
+        if quotient > u32::MAX as u64 {
+            // The quotient does not fit into the destination: the CPU raises a divide error
+            return Err(AxError::from(format!(
+                "Divide error in Div_rm32: quotient {quotient:#x} is too large"
+            )));
+        }
 
         self.reg_write_32(EAX, quotient as u32 as u64)?;
         self.reg_write_32(EDX, remainder as u32 as u64)?;
@@ -135,6 +153,12 @@ impl Axecutor {
         let dst_val = (self.reg_read_64(RAX)? as u128) | ((self.reg_read_64(RDX)? as u128) << 64);
 
         let (quotient, remainder) = (dst_val / src_val, dst_val % src_val);
+        if quotient > u64::MAX as u128 {
+            // The quotient does not fit into the destination: the CPU raises a divide error
+            return Err(AxError::from(format!(
+                "Divide error in Div_rm64: quotient {quotient:#x} is too large"
+            )));
+        }
 
         self.reg_write_64(RAX, quotient as u64)?;
         self.reg_write_64(RDX, remainder as u64)?;
